@@ -691,6 +691,11 @@ def d7(cx: Cx, ob: Ob) -> None:
     cols = None
     for c in rows:
         a = c[2][0] if c[2] else None
+        # rows passed through a de-duplicating / re-ordering view: the file no longer holds the triples given
+        while op(a) == "call" and (a[1] in (("builtin", "set"), ("builtin", "frozenset"), ("builtin", "sorted"), ("builtin", "list"), ("builtin", "tuple")) or a[1] == ("attr", ("builtin", "dict"), "fromkeys")) and a[2]:
+            if a[1] in (("builtin", "set"), ("builtin", "frozenset")) or a[1] == ("attr", ("builtin", "dict"), "fromkeys"):
+                ob.violate(w.qualname, w.where, f"write_triples writes `{show(a)[:50]}`: rows that occur more than once are written once, so reading the file back does not give the triples that were written (a triple given twice, or two triples that differ only in a reference's name)", witness="write_triples([t, t], path); read_triples(path) returns one triple", detail="rows-deduplicated")
+            a = a[2][0]
         elt = a[2] if op(a) == "comp" else a
         tgt = a[3][0][0] if op(a) == "comp" else None
         if op(elt) in ("tuple", "list") and len(elt[1]) == 3:
